@@ -14,6 +14,7 @@ Shared evaluator lemmas for `RuschmModel/Eval.lean`.
    `Applies.closure_value`, `Applies.closure_tail`, `Applies.apply`, `Applies.arity_err`, …).
 -/
 import RuschmSpec.Ref
+import RuschmModel.Xform
 namespace Ruschm.Eval
 open Prim
 
@@ -2040,3 +2041,111 @@ theorem spreadApply_snoc {f : Value} {as : List Value} {lst : Value} (hf : (proc
   rcases hl with rfl | ⟨a, d, rfl⟩ <;> simp
 
 end Ruschm.Eval
+
+/-! ## `define` sugar (RuschmModel/Xform.lean) -/
+
+namespace Ruschm.Xform
+
+theorem XM.bind_def {α β} (m : XM α) (f : α → XM β) (s : SynEnv) :
+    (m >>= f) s = match m s with
+      | (.ok a, s') => f a s'
+      | (.error e, s') => (.error e, s') := rfl
+theorem XM.pure_def {α} (a : α) (s : SynEnv) : (pure a : XM α) s = (.ok a, s) := rfl
+
+theorem toDefinition_sugar (j : Nat) (f : String) (lf l₁ : Loc) (formalsD : Datum) (bs : List Datum) (s : SynEnv) :
+    toDefinition (j+1) (Datum.pair (.sym f lf) formalsD l₁ :: bs) s =
+      (do let formals ← toFormals formalsD
+          let (defs, body) ← toBody j bs [] []
+          pure (f, Expr.lambda (.mk formals defs body) lf)) s := by
+  rw [toDefinition]
+  simp only [XM.bind_def, XM.pure_def, need, identOf, Macro.identOf, lift, Datum.loc, List.head?_cons, List.drop_succ_cons, List.drop_zero]
+
+theorem elems_pair (a d : Datum) (l : Loc) : (Datum.pair a d l).elems = a :: d.elems := by
+  simp only [Datum.elems, Datum.spine]
+  generalize d.spine = sp
+  obtain ⟨xs, t⟩ := sp
+  cases t <;> rfl
+
+theorem toDefinition_lambda (j : Nat) (f : String) (lf l₂ l₃ l₄ : Loc) (formalsD bsD : Datum) (s : SynEnv) :
+    toDefinition (j+4) [.sym f lf, .pair (.sym "lambda" l₂) (.pair formalsD bsD l₄) l₃] s =
+      (do let formals ← toFormals formalsD
+          let (defs, body) ← inChild (toBody j bsD.elems [] [])
+          pure (f, Expr.lambda (.mk formals defs body) l₃)) s := by
+  rw [toDefinition]
+  simp only [XM.bind_def, XM.pure_def, need, List.head?_cons, List.drop_succ_cons, List.drop_zero]
+  rw [toExpr]
+  simp only [XM.bind_def]
+  rw [toStatement]
+  simp (config := {decide := true}) only [XM.bind_def, lift, Macro.popProper, if_true, if_false, elems_pair, Datum.loc]
+  rw [toLambda]
+  simp only [XM.bind_def, XM.pure_def, need, List.head?_cons, List.drop_succ_cons, List.drop_zero]
+  generalize toFormals formalsD s = x
+  obtain ⟨r, s'⟩ := x
+  cases r with
+  | error e => rfl
+  | ok fm =>
+    simp only
+    generalize inChild (toBody j bsD.elems [] []) s' = y
+    obtain ⟨r, s''⟩ := y
+    cases r <;> rfl
+
+
+theorem toStatement_define (k : Nat) (ld l l' : Loc) (a d : Datum) (s : SynEnv) :
+    toStatement (k+1) (.pair (.sym "define" ld) (.pair a d l') l) s =
+      (do let (n, e) ← toDefinition k (a :: d.elems)
+          pure (Statement.definition (.mk n e l))) s := by
+  rw [toStatement]
+  simp (config := {decide := true}) only [XM.bind_def, lift, Macro.popProper, if_true, elems_pair, Datum.loc]
+
+theorem toFormals_env (d : Datum) (s : SynEnv) : (toFormals d s).2 = s := by
+  unfold toFormals
+  split
+  · simp only
+    generalize List.find? _ _ = x
+    cases x <;> rfl
+  · simp only
+    generalize List.find? _ _ = x
+    cases x <;> rfl
+  · rfl
+  · rfl
+
+end Ruschm.Xform
+
+namespace Ruschm
+
+mutual
+theorem Datum.beq_refl : ∀ d : Datum, Datum.beq d d = true
+  | .prim p l => by simp [Datum.beq]
+  | .sym s l => by simp [Datum.beq]
+  | .pair a d l => by simp [Datum.beq, Datum.beq_refl a, Datum.beq_refl d]
+  | .nil l => by simp [Datum.beq]
+  | .vec xs l => by simp [Datum.beq, Datum.beqList_refl xs]
+theorem Datum.beqList_refl : ∀ ds : List Datum, Datum.beqList ds ds = true
+  | [] => by simp [Datum.beqList]
+  | x :: xs => by simp [Datum.beqList, Datum.beq_refl x, Datum.beqList_refl xs]
+end
+
+mutual
+theorem Expr.beq_refl : ∀ e : Expr, Expr.beq e e = true
+  | .sym s l => by simp [Expr.beq]
+  | .prim p l => by simp [Expr.beq]
+  | .assign n e l => by simp [Expr.beq, Expr.beq_refl e]
+  | .lambda lam l => by simp [Expr.beq, Lambda.beq_refl lam]
+  | .call f as l => by simp [Expr.beq, Expr.beq_refl f, Expr.beqList_refl as]
+  | .cond t c none l => by simp [Expr.beq, Expr.beq_refl t, Expr.beq_refl c]
+  | .cond t c (some a) l => by simp [Expr.beq, Expr.beq_refl t, Expr.beq_refl c, Expr.beq_refl a]
+  | .quote d l => by simp [Expr.beq, Datum.beq_refl]
+  | .datum d l => by simp [Expr.beq, Datum.beq_refl]
+theorem Expr.beqList_refl : ∀ es : List Expr, Expr.beqList es es = true
+  | [] => by simp [Expr.beqList]
+  | x :: xs => by simp [Expr.beqList, Expr.beq_refl x, Expr.beqList_refl xs]
+theorem Lambda.beq_refl : ∀ l : Lambda, Lambda.beq l l = true
+  | .mk f d b => by simp [Lambda.beq, Def.beqList_refl d, Expr.beqList_refl b]
+theorem Def.beq_refl : ∀ d : Def, Def.beq d d = true
+  | .mk n e l => by simp [Def.beq, Expr.beq_refl e]
+theorem Def.beqList_refl : ∀ ds : List Def, Def.beqList ds ds = true
+  | [] => by simp [Def.beqList]
+  | x :: xs => by simp [Def.beqList, Def.beq_refl x, Def.beqList_refl xs]
+end
+
+end Ruschm
